@@ -635,6 +635,9 @@ class _ScopeVisitor(_ExpressionVisitor):
         if self.owner_object is None or self.owner_object.parent is None:
             return
         enclosing = self.owner_object.parent.get_scope()
+        # a class body in between is not an enclosing scope of its methods
+        while enclosing.get_kind() == "Class" and enclosing.parent is not None:
+            enclosing = enclosing.parent
         for name in node.names:
             pyname = enclosing.lookup(name)
             if pyname is not None:
